@@ -100,4 +100,20 @@ PROPS = {
         "level_note": HCOBS_NOTE + " The slice-level lag bound (one arena chunk) is measured by the harness, not proved.",
         "assumptions": HCOBS_ASSUME,
     },
+    "C08": {
+        "families": ["chunk"],
+        "n": {"quick": {"chunk": 3000}, "thorough": {"chunk": 60000}},
+        "rule": "all streams over {FE, FD, 00} up to length 6 (quick; a third of lengths 5-6) / 9 (thorough) x block sizes {0,1,2,3,5} x three read schedules (full reads, one byte at a time, EINTR-interleaved) x fresh / used arena; plus random streams up to 5000 bytes (FE/FD-only, FE/FD-rich, mostly random) with block sizes 0-5, 6-69, 4096, 512 KiB and random short-read / EINTR schedules; distinct = distinct case line; non-trivial = at least one sentinel and two data chunks",
+        "level_text": "Theorems C08_tiling / C08_pump_spec / C08_sentinels_complete: for every stream and every block size (0 and 1 included) the chunk sequence of the faithful pump model ends in exactly one Eof, its Data payloads and one FE FD per Sentinel concatenate to the stream, every offset is the absolute end of its chunk, Data chunks are non-empty and FE FD-free, no FE|FD straddles two consecutive Data chunks, and hence every FE FD found by the left-to-right scan is reported as exactly one Sentinel. The refill is read_n at usize::MAX attempts over carry-then-reader (C17: for schedules of short reads and EINTR it returns min(wanted, available) bytes). Tied to the code by exhaustive small streams x block sizes x schedules and random streams; the check evaluates the tiling predicate on the implementation's own chunk sequence.",
+        "level_note": "Trusted: Coq kernel; the pump model; std::io::Chain reads the carry before the reader; read_n's schedule independence is C17's theorem instantiated for schedules without hard errors; hard I/O errors propagate and end the sequence (not part of the property).",
+        "assumptions": ["std::io::Chain delivers the first reader completely before the second", "read schedules contain only short reads and Interrupted (hard errors abort pump with Err)"],
+    },
+    "C06": {
+        "families": ["reader"],
+        "n": {"quick": {"reader": 3000}, "thorough": {"reader": 60000}},
+        "rule": "a five-record log truncated at every byte x block sizes {0,1,3}; all streams over {FE, FD, 00, 01} up to length 5 (quick) / 7 (thorough) with rotating block size, max and limit; random streams built from valid records, torn and corrupted records, garbage, lone FE/FD and delimiter runs, optionally cut at an arbitrary byte, with block sizes 0-69 / 4096 / default, max in {none, 0-8, 9-299}, limit in {none, 0..len+1} and random short-read / EINTR schedules; distinct = distinct case line; non-trivial = at least two records returned",
+        "level_text": "Theorem C06_reader_spec (+ C06_valid_record_survives): for every chunk sequence that tiles a stream as C08 proves the chunker's does, successive calls of the faithful next_record_bytes model with the standard judge return exactly spec_records max limit stream (the maximal FE FD-free segments that are valid encodings of at most max bytes, with their exact ranges, stopping at the first segment starting at or after limit) and then None forever, without panicking. Composes C08 (tiling), the decoder exactness theorem (C07) and the record-level lemma (any cutting of a segment into Data pieces gives the whole-segment verdict).",
+        "level_note": "Trusted: Coq kernel; the reader model over chunk sequences and the pump model (both tied by correspondence); the standard judge only (a custom judge answering SkipRecord on an empty range trips an assertion: DESIGN.md O2).",
+        "assumptions": ["standard chunk_judge", "no hard I/O error from the reader"],
+    },
 }
